@@ -23,6 +23,8 @@ func init() {
 			"R7 in every function that builds the event batch it distributes, one pass of the loop that handles a key appends at most one event to that batch (no path appends twice in the same iteration): a second append is a duplicate add/delete for the subscribers",
 			"R8 no operation of a mutex-protected collection reads mutable state in one critical section, releases the lock, and writes state computed from it in a second one (events applied in between are lost from what is published)",
 			"R9 sibling rule: every method of the join family that walks the joined collections / indexers and hands their objects on resolves overlapping keys (first hit wins, a seen-set, or a look-up in the higher-priority collections) unless it is on the unchecked-overlap path: List, GetKey and index Lookup must agree",
+			"R10 a function that both subscribes to a collection without replaying its existing state (Register*(..., false)) and lists it takes the list AFTER subscribing on every path: an element added between a snapshot and a later subscription is in neither",
+			"R11 the per-collection extractor registry of a derived collection (indexedDependenciesExtractor: which collections are fetched un-indexed, by key, by index) is shared by all inputs and not reference counted, so nothing ever deletes from it (positive control: deletions from the per-input reverse index are recognised)",
 			"R6 a secondary (dependency) event is matched against both the old and the new object when deciding which inputs to recompute",
 		},
 		NotDecided: "event-stream consistency in general, output diffing, keys moving between parents, join/merge semantics (a duplicate delete in mergejoin was reported by a seeding agent and is noted in DESIGN.md as untriaged); R1 of the design (untracked reads inside transformations) is not armed",
@@ -35,6 +37,8 @@ func init() {
 			{"C16-R7", "one output event per key and pass", c16r7},
 			{"C16-R8", "state is not read in one critical section and published in a later one", c16r8},
 			{"C16-R9", "every read path of a join resolves overlapping keys", c16r9},
+			{"C16-R10", "subscribe before taking the snapshot", c16r10},
+			{"C16-R11", "shared dependency markers are never removed", c16r11},
 		},
 	})
 }
@@ -737,4 +741,115 @@ func c16r9(c *Ctx) {
 	}
 	c.Check("join read paths found", token.NoPos, n >= 3, "fewer read paths over the joined collections than confirmed by hand (List, GetKey, index Lookup)")
 	c.Floor(4)
+}
+
+
+// C16-R10: subscribe, then snapshot.
+func c16r10(c *Ctx) {
+	p := c.P
+	n := 0
+	chosen := map[*ssa.Function]bool{}
+	for _, fn := range p.AllFuncs {
+		if funcPkgPath(fn) != istioMod+"/"+pkgKrt || strings.HasSuffix(p.Fset.Position(fn.Pos()).Filename, "_test.go") {
+			continue
+		}
+		if fn.Synthetic != "" && !strings.HasPrefix(fn.Synthetic, "instance of") {
+			continue
+		}
+		root := fn
+		for root.Parent() != nil {
+			root = root.Parent()
+		}
+		if o := root.Origin(); o != nil && o != root {
+			continue // the generic body is analysed (it is in the universe), instances are copies
+		}
+		_ = chosen
+		type site struct {
+			ins  ssa.Instruction
+			recv ssa.Value
+		}
+		var regs, lists []site
+		eachInstr(fn, func(ins ssa.Instruction) {
+			ci, ok := ins.(ssa.CallInstruction)
+			if !ok {
+				return
+			}
+			cc := ci.Common()
+			name := ""
+			var recv ssa.Value
+			if cc.IsInvoke() {
+				name, recv = cc.Method.Name(), cc.Value
+			} else if o := calleeObj(ins); o != nil && len(cc.Args) > 0 {
+				name, recv = o.Name(), cc.Args[0]
+			}
+			switch name {
+			case "RegisterBatch", "Register":
+				// without replay of the existing state
+				args := cc.Args
+				if len(args) > 0 {
+					if b, isC := constBool(args[len(args)-1]); isC && !b {
+						regs = append(regs, site{ins, recv})
+					}
+				}
+			case "List":
+				lists = append(lists, site{ins, recv})
+			}
+		})
+		for _, l := range lists {
+			for _, r := range regs {
+				if !(l.recv == r.recv || sameValue(l.recv, r.recv)) {
+					continue
+				}
+				n++
+				ok := precededOnAllPaths(fn, l.ins, func(i ssa.Instruction) bool { return i == r.ins })
+				c.Check("snapshot taken after subscribing: "+stableFnName(fn), l.ins.Pos(), ok,
+					"this function lists a collection and subscribes to it without replay, and the list can be taken before the subscription is in place: an element added in between is neither in the snapshot nor announced (e.g. a nested join never subscribes to a collection added during its construction; its objects are missing for good)")
+			}
+		}
+	}
+	c.Check("subscribe-and-list sites found", token.NoPos, n >= 1, "no function that subscribes without replay and lists the same collection (NestedJoinWithMergeCollection)")
+	c.Floor(2)
+}
+
+// C16-R11: grow-only extractor registry.
+func c16r11(c *Ctx) {
+	p := c.P
+	reg := p.Field(pkgKrt, "dependencyState", "indexedDependenciesExtractor")
+	rev := p.Field(pkgKrt, "dependencyState", "indexedDependencies")
+	nDel, nCtl := 0, 0
+	var pos token.Pos
+	var where string
+	for _, fn := range p.AllFuncs {
+		if funcPkgPath(fn) != istioMod+"/"+pkgKrt || strings.HasSuffix(p.Fset.Position(fn.Pos()).Filename, "_test.go") {
+			continue
+		}
+		eachInstr(fn, func(ins ssa.Instruction) {
+			ci, ok := ins.(ssa.CallInstruction)
+			if !ok {
+				return
+			}
+			isDelete := false
+			if bi, ok := ci.Common().Value.(*ssa.Builtin); ok && bi.Name() == "delete" {
+				isDelete = true
+			} else if o := calleeObj(ins); o != nil && strings.HasPrefix(o.Name(), "Delete") {
+				isDelete = true
+			}
+			if !isDelete {
+				return
+			}
+			for _, a := range ci.Common().Args {
+				switch fieldOfLoad(a) {
+				case reg:
+					nDel++
+					pos, where = ins.Pos(), stableFnName(fn)
+				case rev:
+					nCtl++
+				}
+			}
+		})
+	}
+	c.Check("nothing deletes from the shared extractor registry", pos, nDel == 0,
+		"an entry of indexedDependenciesExtractor is deleted in "+where+": the entry (e.g. the `this collection is also fetched un-indexed` marker) is shared by all inputs of the derived collection and not reference counted, so removing it because ONE input went away makes changedInputKeys trust the reverse index alone and the remaining un-indexed fetchers are never recomputed on secondary changes (derived state stays stale)")
+	c.Check("positive control: deletions from the per-input reverse index are recognised", token.NoPos, nCtl >= 1, "the deletion detector no longer sees the DeleteCleanupLast calls on indexedDependencies")
+	c.Floor(2)
 }
